@@ -131,6 +131,15 @@ impl Session {
         }
     }
 
+    /// a caller that drops the future returned by `run` instead of awaiting it must call this
+    pub(crate) fn reset_cancelled_run(&mut self) {
+        match &mut self.inner {
+            // a master session is never cancelled: `run` is always awaited to completion
+            SessionType::Master(_) => {}
+            SessionType::Outstation(x) => x.reset(),
+        }
+    }
+
     pub(crate) async fn wait_for_enabled(&mut self) -> Result<(), Shutdown> {
         loop {
             if self.enabled() == Enabled::Yes {
